@@ -168,6 +168,9 @@ func evMix(x uint64) uint64 {
 func evRun(c *lib.Ctx, sweep []evCase, nComposite int, ctl bool, avoid func(cell, exit string) bool, relies []string) {
 	c.Rng = lib.NewRng(evMix(c.Seed + 0x5eed))
 	cases := append([]evCase{}, sweep...)
+	if os.Getenv("VERIF_EV_NOSWEEP") != "" { // self-test aid: what do the composite programs alone detect
+		cases = nil
+	}
 	hist := map[string]int{}
 	rejected := []string{}
 	if v := os.Getenv("VERIF_EV_N"); v != "" { // debugging aid: override the number of composite cases
